@@ -22,16 +22,6 @@ func libGoroutineDump() string {
 	return b.String()
 }
 
-func waitLibBaseline(base int, deadline time.Duration) (int, bool) {
-	end := time.Now().Add(deadline)
-	n := libGoroutineCount()
-	for n > base && time.Now().Before(end) {
-		time.Sleep(500 * time.Microsecond)
-		n = libGoroutineCount()
-	}
-	return n, n <= base
-}
-
 func init() {
 	register("C12LEAK", func(h *hctx) {
 		for i := 0; i < h.n; i++ {
